@@ -88,76 +88,122 @@ func c18Err(err error) string {
 	return "err ?" + strings.ReplaceAll(err.Error(), " ", "_")
 }
 
-func c18Decode(entry string, b []byte) string {
-	var v string
-	var l int
-	var err error
+// --- results held across calls -------------------------------------------------------------------------------------
+// lal's callers keep what these functions return (the gop cache holds both metadata forms across messages, remuxers
+// keep parsed values) while the input buffer is reused for the next message and the function is called again for
+// another stream. Every op therefore (1) calls the function, (2) calls it again on other inputs of similar size,
+// (3) scribbles over the inputs and over the later results (up to their capacity), and only then prints the first result.
+
+func c18Scribble(b []byte, v byte) {
+	b = b[:cap(b)]
+	for i := range b {
+		b[i] = v
+	}
+}
+
+// another input of the same size: letters / digits / high bytes change, markers and small length fields stay
+func c18Other(b []byte, keep int) []byte {
+	o := make([]byte, len(b))
+	copy(o, b)
+	for i := keep; i < len(o); i++ {
+		if o[i] >= 0x30 {
+			o[i] ^= 0x01
+		}
+	}
+	return o
+}
+
+// c18HeldBytes: f's result for in, as a caller that kept it sees it after f was used again
+func c18HeldBytes(in []byte, f func([]byte) ([]byte, error)) ([]byte, error) {
+	in1 := append(make([]byte, 0, len(in)), in...)
+	r1, err := f(in1)
+	in2 := c18Other(in, 0)  // other path when the input began with @setDataFrame
+	in3 := c18Other(in, 16) // same path, other content
+	r2, _ := f(in2)
+	r3, _ := f(in3)
+	c18Scribble(in1, 0xa5)
+	c18Scribble(in2, 0xa5)
+	c18Scribble(in3, 0xa5)
+	c18Scribble(r2, 0x5a)
+	c18Scribble(r3, 0x5a)
+	return r1, err
+}
+
+// c18HeldWrite: what one writer call put into its io.Writer, after the writer was used again for another value
+func c18HeldWrite(w func(buf *bytes.Buffer, other bool)) []byte {
+	b1, b2 := &bytes.Buffer{}, &bytes.Buffer{}
+	w(b1, false)
+	w(b2, true)
+	c18Scribble(b2.Bytes(), 0x5a)
+	return b1.Bytes()
+}
+
+func c18Read(entry string, b []byte) (val interface{}, l int, err error) {
 	switch entry {
 	case "strwo":
-		var s string
-		s, l, err = rtmp.Amf0.ReadStringWithoutType(b)
-		v = "s" + c18StrTok(s)
+		val, l, err = rtmp.Amf0.ReadStringWithoutType(b)
 	case "lstrwo":
-		var s string
-		s, l, err = rtmp.Amf0.ReadLongStringWithoutType(b)
-		v = "s" + c18StrTok(s)
+		val, l, err = rtmp.Amf0.ReadLongStringWithoutType(b)
 	case "str":
-		var s string
-		s, l, err = rtmp.Amf0.ReadString(b)
-		v = "s" + c18StrTok(s)
+		val, l, err = rtmp.Amf0.ReadString(b)
 	case "num":
-		var f float64
-		f, l, err = rtmp.Amf0.ReadNumber(b)
-		v = c18ShowVal(f)
+		val, l, err = rtmp.Amf0.ReadNumber(b)
 	case "bool":
-		var x bool
-		x, l, err = rtmp.Amf0.ReadBoolean(b)
-		v = c18ShowVal(x)
+		val, l, err = rtmp.Amf0.ReadBoolean(b)
 	case "null":
 		l, err = rtmp.Amf0.ReadNull(b)
-		v = "_"
 	case "undef":
 		l, err = rtmp.Amf0.ReadUndefinedOrUnsupported(b)
-		v = "_"
 	case "obj":
-		var o rtmp.ObjectPairArray
-		o, l, err = rtmp.Amf0.ReadObject(b)
-		if err == nil {
-			v = c18ShowPairs(o)
-		}
+		val, l, err = rtmp.Amf0.ReadObject(b)
 	case "arr":
-		var o rtmp.ObjectPairArray
-		o, l, err = rtmp.Amf0.ReadArray(b)
-		if err == nil {
-			v = c18ShowPairs(o)
-		}
+		val, l, err = rtmp.Amf0.ReadArray(b)
 	case "sarr":
-		var o rtmp.ObjectPairArray
-		o, l, err = rtmp.Amf0.ReadStrictArray(b)
-		if err == nil {
-			v = c18ShowPairs(o)
-		}
+		val, l, err = rtmp.Amf0.ReadStrictArray(b)
 	case "ooa":
-		var o rtmp.ObjectPairArray
-		o, l, err = rtmp.Amf0.ReadObjectOrArray(b)
-		if err == nil {
-			v = c18ShowPairs(o)
-		}
+		val, l, err = rtmp.Amf0.ReadObjectOrArray(b)
+	case "meta":
+		val, err = rtmp.ParseMetadata(b)
 	default:
 		panic("bad entry " + entry)
 	}
+	return
+}
+
+// the decoded value is printed after the reader has been used on another input and both inputs were overwritten
+// (decoded strings and pair lists must not share memory with the message buffer or with a later result)
+func c18Decode(entry string, b []byte) string {
+	val, l, err := c18Read(entry, b)
+	if len(b) <= 1<<16 {
+		b2 := c18Other(b, 0)
+		v2, _, _ := c18Read(entry, b2)
+		if o, ok := v2.(rtmp.ObjectPairArray); ok {
+			for i := range o {
+				o[i] = rtmp.ObjectPair{Key: "scribbled", Value: "scribbled"}
+			}
+		}
+		c18Scribble(b2, 0xa5)
+	}
+	c18Scribble(b, 0xa5)
 	if err != nil {
 		return c18Err(err)
+	}
+	var v string
+	switch entry {
+	case "null", "undef":
+		v = "_"
+	case "meta":
+		return "ok " + c18ShowPairs(val.(rtmp.ObjectPairArray))
+	case "obj", "arr", "sarr", "ooa":
+		v = c18ShowPairs(val.(rtmp.ObjectPairArray))
+	default:
+		v = c18ShowVal(val)
 	}
 	return fmt.Sprintf("ok %s %s", v, tokInt(int64(l)))
 }
 
 func c18Meta(b []byte) string {
-	o, err := rtmp.ParseMetadata(b)
-	if err != nil {
-		return c18Err(err)
-	}
-	return "ok " + c18ShowPairs(o)
+	return c18Decode("meta", append(make([]byte, 0, len(b)), b...))
 }
 
 func c18Pairs(s string) rtmp.ObjectPairArray {
@@ -209,29 +255,64 @@ func c18Cat(a, b []byte) []byte {
 
 func init() {
 	register("c18.wnum", func(a []string) string {
-		buf := &bytes.Buffer{}
-		_ = rtmp.Amf0.WriteNumber(buf, math.Float64frombits(numTok(a[0])))
-		return tokBytes(buf.Bytes()) + " " + c18Decode("num", c18Cat(buf.Bytes(), c18Bytes(a[1])))
+		v := numTok(a[0])
+		w := c18HeldWrite(func(buf *bytes.Buffer, other bool) {
+			x := v
+			if other {
+				x ^= 0x0055aa55aa55aa55
+			}
+			_ = rtmp.Amf0.WriteNumber(buf, math.Float64frombits(x))
+		})
+		return tokBytes(w) + " " + c18Decode("num", c18Cat(w, c18Bytes(a[1])))
 	})
 	register("c18.wstr", func(a []string) string {
-		buf := &bytes.Buffer{}
-		_ = rtmp.Amf0.WriteString(buf, string(c18Bytes(a[0])))
-		return tokBytes(buf.Bytes()) + " " + c18Decode("str", c18Cat(buf.Bytes(), c18Bytes(a[1])))
+		in := c18Bytes(a[0])
+		w := c18HeldWrite(func(buf *bytes.Buffer, other bool) {
+			x := in
+			if other {
+				x = c18Other(in, 0)
+			}
+			_ = rtmp.Amf0.WriteString(buf, string(x))
+		})
+		c18Scribble(in, 0xa5)
+		return tokBytes(w) + " " + c18Decode("str", c18Cat(w, c18Bytes(a[1])))
 	})
 	register("c18.wbool", func(a []string) string {
-		buf := &bytes.Buffer{}
-		_ = rtmp.Amf0.WriteBoolean(buf, boolTok(a[0]))
-		return tokBytes(buf.Bytes()) + " " + c18Decode("bool", c18Cat(buf.Bytes(), c18Bytes(a[1])))
+		v := boolTok(a[0])
+		w := c18HeldWrite(func(buf *bytes.Buffer, other bool) { _ = rtmp.Amf0.WriteBoolean(buf, v != other) })
+		return tokBytes(w) + " " + c18Decode("bool", c18Cat(w, c18Bytes(a[1])))
 	})
 	register("c18.wnull", func(a []string) string {
-		buf := &bytes.Buffer{}
-		_ = rtmp.Amf0.WriteNull(buf)
-		return tokBytes(buf.Bytes()) + " " + c18Decode("null", c18Cat(buf.Bytes(), c18Bytes(a[0])))
+		w := c18HeldWrite(func(buf *bytes.Buffer, other bool) {
+			if other {
+				_ = rtmp.Amf0.WriteBoolean(buf, true)
+			} else {
+				_ = rtmp.Amf0.WriteNull(buf)
+			}
+		})
+		return tokBytes(w) + " " + c18Decode("null", c18Cat(w, c18Bytes(a[0])))
 	})
 	register("c18.wobj", func(a []string) string {
-		buf := &bytes.Buffer{}
-		_ = rtmp.Amf0.WriteObject(buf, c18Pairs(a[0]))
-		return tokBytes(buf.Bytes()) + " " + c18Decode("obj", c18Cat(buf.Bytes(), c18Bytes(a[1])))
+		w := c18HeldWrite(func(buf *bytes.Buffer, other bool) {
+			pairs := c18Pairs(a[0])
+			if other {
+				for i := range pairs {
+					pairs[i].Key = string(c18Other([]byte(pairs[i].Key), 0))
+					switch x := pairs[i].Value.(type) {
+					case string:
+						pairs[i].Value = string(c18Other([]byte(x), 0))
+					case float64:
+						pairs[i].Value = x + 1
+					case int:
+						pairs[i].Value = x ^ 0x55
+					case bool:
+						pairs[i].Value = !x
+					}
+				}
+			}
+			_ = rtmp.Amf0.WriteObject(buf, pairs)
+		})
+		return tokBytes(w) + " " + c18Decode("obj", c18Cat(w, c18Bytes(a[1])))
 	})
 	register("c18.read", func(a []string) string {
 		// a runaway recursion dies after 64 MiB of stack instead of 1 GiB
@@ -245,13 +326,23 @@ func init() {
 		return c18Decode(a[0], c18Bytes(a[1]))
 	})
 	register("c18.sdf", func(a []string) string {
+		// all six results are computed (each one held while the functions are used again, see c18HeldBytes),
+		// the input is overwritten, and only then anything is printed
 		b := c18Bytes(a[0])
-		ws, w := c18Ensure(rtmp.MetadataEnsureWithSdf(b))
-		wos, wo := c18Ensure(rtmp.MetadataEnsureWithoutSdf(b))
-		wows, _ := c18Ensure(rtmp.MetadataEnsureWithoutSdf(w))
-		wwos, _ := c18Ensure(rtmp.MetadataEnsureWithSdf(wo))
-		wws, _ := c18Ensure(rtmp.MetadataEnsureWithSdf(w))
-		wowos, _ := c18Ensure(rtmp.MetadataEnsureWithoutSdf(wo))
+		with, without := rtmp.MetadataEnsureWithSdf, rtmp.MetadataEnsureWithoutSdf
+		w, we := c18HeldBytes(b, with)
+		wo, woe := c18HeldBytes(b, without)
+		wow, wowe := c18HeldBytes(w, without)
+		wwo, wwoe := c18HeldBytes(wo, with)
+		ww, wwe := c18HeldBytes(w, with)
+		wowo, wowoe := c18HeldBytes(wo, without)
+		c18Scribble(b, 0xa5)
+		ws, _ := c18Ensure(w, we)
+		wos, _ := c18Ensure(wo, woe)
+		wows, _ := c18Ensure(wow, wowe)
+		wwos, _ := c18Ensure(wwo, wwoe)
+		wws, _ := c18Ensure(ww, wwe)
+		wowos, _ := c18Ensure(wowo, wowoe)
 		return fmt.Sprintf("w=%s wo=%s wow=%s wwo=%s ww=%s wowo=%s", ws, wos, wows, wwos, wws, wowos)
 	})
 	register("c18.build", func(a []string) string {
@@ -267,6 +358,17 @@ func init() {
 			return "const-mismatch " + hexOf([]byte(base.LalRtmpBuildMetadataEncoder)) + " " + hexOf([]byte(base.LalVersionDot))
 		}
 		out, err := rtmp.BuildMetadata(pi(a[0]), pi(a[1]), pi(a[2]), pi(a[3]))
+		// the function is used again (another stream) while the first result is still held
+		for _, d := range [][4]int{{1, 1, 1, 1}, {0, 0, 0, 0}, {-1, -1, -1, -1}} {
+			alt := func(v, d int) int {
+				if d < 0 {
+					return -1
+				}
+				return (v + d) & 0xffff
+			}
+			o2, _ := rtmp.BuildMetadata(alt(pi(a[0]), d[0]), alt(pi(a[1]), d[1]), alt(pi(a[2]), d[2]), alt(pi(a[3]), d[3]))
+			c18Scribble(o2, 0x5a)
+		}
 		if err != nil {
 			return c18Err(err)
 		}
